@@ -41,9 +41,10 @@ def FOperand.ofOperand : Operand → FOperand
   | .ts s => .ts s
   | .num q => .num q
 
-/-- column policy of `presync` (`columns = 'ij' | 'oj'`) -/
+/-- column policy of `presync` (`columns = 'ij' | 'oj' | 'lj' | 'rj'`: common columns, all columns, the columns of the
+first / of the last frame with several columns) -/
 inductive ColHow where
-  | ij | oj
+  | ij | oj | lj | rj
   deriving Repr, DecidableEq, Inhabited
 
 /-- `presync(default = …)`, lines 1061-1092: what a missing column is replaced by -/
@@ -98,7 +99,11 @@ def sortS (cs : List String) : List String := cs.foldr insS []
 
 /-- `sorted(df_columns(listed, columns))`, lines 196-198 and 1054-1055 -/
 def colsJoin (ch : ColHow) (c : List String) (cs : List (List String)) : List String :=
-  sortS (match ch with | .ij => cs.foldl interS c | .oj => cs.foldl unionS c)
+  sortS (match ch with
+    | .ij => cs.foldl interS c
+    | .oj => cs.foldl unionS c
+    | .lj => c                          -- `_df_index(indexes, 'lj')` = `indexes[0]`
+    | .rj => (c :: cs).getLastD c)      -- `indexes[-1]`
 
 /-- the columns looped over: `none` if no operand has several columns; the common header (in ITS order) if all
 frames with several columns have the same header, lines 1038-1041; else the sorted intersection / union -/
@@ -140,19 +145,29 @@ def bcast (ix : List Int) : Operand → RCol
   | .ts s => s.vals
   | .num q => ix.map fun _ => q
 
-/-- lines 1034-1058 on operands that are already on the joint index `ix` -/
-def kernelF (op : Op) (ch : ColHow) (ix : List Int) (a b : FOperand) : FOperand :=
-  let d := some op.neutral
+/-- lines 1034-1058 on operands that are already on the joint index `ix`, for any presync-decorated kernel: `k` is the
+decorated function on Series / scalars, `d` its `presync(default = …)` (what a missing column is replaced by) -/
+def kernelFG (k : Operand → Operand → Operand) (d : Option Rat) (ch : ColHow) (ix : List Int) (a b : FOperand) : FOperand :=
   match resultCols ch (multiNames [a, b]) with
   | Option.none =>                       -- `columns is None`, lines 1047-1053
-    match kernel op (colArg d "" a) (colArg d "" b) with
+    match k (colArg d "" a) (colArg d "" b) with
     | .ts r => if isDf a || isDf b then .df { idx := r.idx, cols := [((resultName a b).getD "0", r.vals)] } else .ts r
     | .num q => .num q
   | some [] => .ts { idx := [], vals := [] }     -- `_convert({})` = `pd.Series({})`: no column in common
   | some cols =>
-    .df { idx := ix, cols := cols.map fun c => (c, bcast ix (kernel op (colArg d c a) (colArg d c b))) }
+    .df { idx := ix, cols := cols.map fun c => (c, bcast ix (k (colArg d c a) (colArg d c b))) }
 
-/-- a presync-decorated kernel on Series / scalars / frames: `_add_(a, b, join, method, columns)` -/
+/-- `_add_ _sub_ _mul_ _div_`: the arithmetic kernels with their neutral element as default -/
+def kernelF (op : Op) (ch : ColHow) (ix : List Int) (a b : FOperand) : FOperand :=
+  kernelFG (kernel op) (some op.neutral) ch ix a b
+
+/-- a presync-decorated kernel on Series / scalars / frames, `f(a, b, join, method, columns)` -/
+def binopFG (k : Operand → Operand → Operand) (d : Option Rat) (how : How) (m : Option Dir) (ch : ColHow) (a b : FOperand) : FOperand :=
+  match joinIndex how (indexesOfF [a, b]) with
+  | Option.none => kernelFG k d ch [] a b
+  | some ix => kernelFG k d ch ix (alignF ix m a) (alignF ix m b)
+
+/-- `_add_(a, b, join, method, columns)` etc. -/
 def binopF (op : Op) (how : How) (m : Option Dir) (ch : ColHow) (a b : FOperand) : FOperand :=
   match joinIndex how (indexesOfF [a, b]) with
   | Option.none => kernelF op ch [] a b
